@@ -24,5 +24,4 @@ TEXT["C18"] = dict(
     technique="TLA+ decision-list model + TLC exhaustive feature product; real-code runs validated by TLC against spec/trace/TableTrace.tla")
 
 NOT_APPLICABLE = {
- "C06": "check under construction in this round (spec/UrlResolve.tla); not yet registered",
 }
